@@ -11,6 +11,7 @@ type footprint struct {
 	whole bool
 	refs  []string    // object refs (one-level heaps)
 	elems [][3]string // rid, lo, hi (two-level element heaps)
+	regions []string  // whole regions (two-level element heaps)
 	start string      // heap term at iteration start (loops)
 }
 
@@ -73,6 +74,15 @@ func (x *Exec) footprintFor(env *SpecEnv, assigns []AssignSpec, name string) *fo
 					hit = true
 				}
 			}
+		case "region":
+			s := env.eval(a.E)
+			if s.K == KSlice {
+				n, _ := x.elemHeapName(s.T.Underlying().(*types.Slice).Elem())
+				if n == name {
+					fp.regions = append(fp.regions, s.Rid)
+					hit = true
+				}
+			}
 		}
 	}
 	if !hit {
@@ -97,6 +107,9 @@ func (x *Exec) frameFormula(name, final, init string, fp *footprint, bound strin
 			for _, e := range fp.elems {
 				ex = append(ex, mkAnd(mkEq("r!f", e[0]), mkCmp("<=", e[1], "i!f"), mkCmp("<", "i!f", e[2])))
 			}
+			for _, r := range fp.regions {
+				ex = append(ex, mkEq("r!f", r))
+			}
 		}
 		return fmt.Sprintf("(forall ((r!f Int) (i!f Int)) (=> (and (< 0 r!f) (< r!f %s) %s) (= (select (select %s r!f) i!f) (select (select %s r!f) i!f))))",
 			bound, mkNot(mkOr(ex...)), final, init)
@@ -109,4 +122,17 @@ func (x *Exec) frameFormula(name, final, init string, fp *footprint, bound strin
 	}
 	return fmt.Sprintf("(forall ((r!f Int)) (=> (and (< 0 r!f) (< r!f %s) %s) (= (select %s r!f) (select %s r!f))))",
 		bound, mkNot(mkOr(ex...)), final, init)
+}
+
+// widen: the footprint as seen over many invocations of a callback: element windows
+// become whole regions (a window may move inside its region between invocations).
+func (fp *footprint) widen() *footprint {
+	if fp == nil {
+		return nil
+	}
+	n := &footprint{whole: fp.whole, refs: fp.refs, regions: append([]string{}, fp.regions...)}
+	for _, e := range fp.elems {
+		n.regions = append(n.regions, e[0])
+	}
+	return n
 }
